@@ -28,6 +28,7 @@ pub fn catalogue() -> Vec<Entry> {
         f32, f64, bool, (), core::ops::RangeFull, PhantomData<u64>,
         String, Box<str>, Cow<'static, str>, Rc<str>,
         ascii::AsciiString, ascii::AsciiChar,
+        borsh::schema::BorshSchemaContainer, borsh::schema::Definition, borsh::schema::Fields,
         // sequences
         Vec<u8>, Vec<i8>, Vec<u16>, Vec<u32>, Vec<bool>, Vec<String>, Vec<Vec<u8>>, Vec<Vec<u32>>,
         Vec<Option<u8>>, Vec<(u8, String)>, Vec<f32>, Vec<f64>, Vec<[u8; 3]>, Vec<u128>,
@@ -127,6 +128,7 @@ pub fn schema_catalogue() -> Vec<(&'static str, SRun)> {
         core::num::NonZeroI64, core::num::NonZeroI128, core::num::NonZeroUsize,
         f32, f64, bool, (), core::ops::RangeFull, PhantomData<u64>,
         String, Box<str>, Cow<'static, str>, Rc<str>, ascii::AsciiString, ascii::AsciiChar,
+        borsh::schema::BorshSchemaContainer, borsh::schema::Definition, borsh::schema::Fields,
         Vec<u8>, Vec<u16>, Vec<bool>, Vec<String>, Vec<Vec<u8>>, Vec<Option<u8>>, Vec<(u8, String)>, Vec<[u8; 3]>,
         VecDeque<u8>, VecDeque<String>, LinkedList<u8>, LinkedList<String>,
         Box<[u8]>, Box<[String]>, Rc<[u8]>, Cow<'static, [u8]>, Cow<'static, [u64]>,
